@@ -196,6 +196,10 @@ func runC34(c *Ctx) {
 func runC12(c *Ctx) {
 	p := c.P
 	PackagesStateFree(c, "codec-state-free", "plumbing/format/index")
+	NoStreamAccessInMapOrder(c, "stream-not-read-in-map-order", "plumbing/format/index")
+	c.Floor("stream-not-read-in-map-order", 1)
+	checkStageBitsAlwaysWritten(c, "stage-bits-always-written")
+	c.Floor("stage-bits-always-written", 1)
 	// entries-sorted-before-write: git requires index entries ordered by path, then stage; the encoder sorts on every
 	// path before the first entry is written (a sort that is skipped under some "already sorted" test decides the order
 	// with that test's comparison, which need not be the order git requires)
